@@ -1052,6 +1052,9 @@ impl JitCompiler {
 pub struct JitMemory<'a> {
     contents: &'a mut [u8],
     write_enabled: bool,
+    /// Verification hook: number of bytes the size-only first pass counted.
+    #[cfg(rbpf_verif)]
+    verif_pass1_size: usize,
     #[cfg(feature = "std")]
     layout: std::alloc::Layout,
     offset: usize,
@@ -1065,6 +1068,8 @@ impl<'a> JitMemory<'a> {
         JitMemory {
             contents,
             write_enabled: false,
+            #[cfg(rbpf_verif)]
+            verif_pass1_size: 0,
             #[cfg(feature = "std")]
             layout: unsafe { std::alloc::Layout::from_size_align_unchecked(0, 1) },
             offset: 0,
@@ -1107,6 +1112,8 @@ impl<'a> JitMemory<'a> {
         let mut mem = JitMemory {
             contents,
             write_enabled: true,
+            #[cfg(rbpf_verif)]
+            verif_pass1_size: counter.offset,
             layout,
             offset: 0,
         };
@@ -1150,6 +1157,8 @@ impl<'a> JitMemory<'a> {
         let mut mem = JitMemory {
             contents,
             write_enabled: true,
+            #[cfg(rbpf_verif)]
+            verif_pass1_size: counter.offset,
             offset: 0,
         };
 
@@ -1165,6 +1174,12 @@ impl<'a> JitMemory<'a> {
     #[cfg(rbpf_verif)]
     pub fn verif_code(&self) -> &[u8] {
         &self.contents[..self.offset]
+    }
+
+    /// Verification hook: (bytes counted by the first pass, size of the buffer allocated from that count).
+    #[cfg(rbpf_verif)]
+    pub fn verif_sizing(&self) -> (usize, usize) {
+        (self.verif_pass1_size, self.contents.len())
     }
 
     pub fn get_prog(&self) -> MachineCode {
